@@ -97,6 +97,9 @@ impl Extension {
 //@+        && final(self).undone@.take(old(self).undone@.len() as int) =~= old(self).undone@
 //@+        && forall|k: nat| k < m ==> (#[trigger] anc(sp_stored(old(self).head.id), k)).height > header.height
 //@+            && final(self).undone@[(old(self).undone@.len() + k) as int] == sp_stored_block(anc(sp_stored(old(self).head.id), k).id),
+//@+    // C09 / C15: when there is nothing to undo the MMR files are still TRUNCATED at the header (files ahead of the db head after an
+//@+    // interrupted run), and the accumulator chunk holding the truncation point is rebuilt from the truncated leaf set with them
+//@+    r.is_ok() && sp_stored(old(self).head.id).height <= header.height ==> final(self).acc_log@ == old(self).acc_log@.push(seq![header.output_mmr_size]),
 //@+    // the bitmap accumulator is rebuilt from a list that contains EVERY position affected by EVERY block undone
 //@+    r.is_ok() && sp_stored(old(self).head.id).height > header.height ==> final(self).acc_log@.len() == old(self).acc_log@.len() + 1
 //@+        && forall|k: int, j: int| old(self).undone@.len() <= k < final(self).undone@.len() && 0 <= j < sp_affected(final(self).undone@[k]).len()
